@@ -118,6 +118,9 @@ class Interp:
             return b[:n] if s[2] == "0" else b[n:]
         if k == "call" and s[1].endswith("::as_slice") or k == "call" and s[1].endswith("::as_ref"):
             return self.sv(s[2][0])
+        if k == "call" and s[1].endswith("::unwrap_or_default") and len(s[2]) == 1:
+            o = self.ov(s[2][0])
+            return b"" if o is None else o          # Default of a byte slice is the empty slice
         if k == "array" and not s[1]:
             return b""
         if k == "array":
